@@ -18,6 +18,7 @@ import (
 	"runtime/debug"
 	"sort"
 	"strconv"
+	"strings"
 
 	"github.com/apmckinlay/gsuneido/db19/index/btree"
 	"github.com/apmckinlay/gsuneido/db19/index/iface"
@@ -41,6 +42,8 @@ type scen struct {
 	noff   int
 	nit    int
 	dead   bool
+	// skip-scan tables (composite universes only): distinct prefixes / suffixes for skipStart = 1
+	pfx, sfx []string
 }
 
 var stats = map[string]int{}
@@ -106,7 +109,11 @@ func newScen(tr *vh.Trace, rnd *rand.Rand, keys []string, split int, kind string
 	btree.SetSplit(split)
 	s.st = stor.HeapStor(64 * 1024)
 	s.st.Alloc(1 + rnd.Intn(9000)) // offset 0 means "no node" to the merge code (DESIGN 6.1)
-	tr.Emit(vh.E("Scn", "K", s.K, "split", split, "kind", kind))
+	pg, sf := []int{}, []int{}
+	if strings.Contains(kind, "composite") {
+		pg, sf, s.pfx, s.sfx = nastykeys.SplitTables(keys, func(k string) (string, string) { return ixkey.SplitPrefixSuffix(k, 1) })
+	}
+	tr.Emit(vh.E("Scn", "K", s.K, "split", split, "kind", kind, "pg", pg, "sf", sf))
 	stats["scenarios"]++
 	return s
 }
@@ -363,8 +370,16 @@ func (s *scen) walk(v int, n int) {
 	it := bt.Iterator()
 	s.tr.Emit(vh.E("ItNew", "it", id, "v", v))
 	for i := 0; i < n; i++ {
-		op, k, k2 := "", 0, 0
-		switch x := rnd.Intn(20); {
+		op, k, k2, k3, k4 := "", 0, 0, 0, 0
+		x := rnd.Intn(20)
+		if s.pfx != nil && rnd.Intn(7) == 0 {
+			x = 100
+		}
+		switch {
+		case x == 100: // skip-scan: prefix range, suffix range (ranks into the prefix / suffix tables)
+			op = "skip"
+			k, k2 = bounds(rnd, s.pfx)
+			k3, k4 = bounds(rnd, s.sfx)
 		case x < 7:
 			op = "next"
 		case x < 13:
@@ -399,6 +414,8 @@ func (s *scen) walk(v int, n int) {
 				} else {
 					it.Range(iface.Range{Org: s.keyOf(k), End: s.keyOf(k2)})
 				}
+			case "skip":
+				it.SkipScan(rangeOf(s.pfx, k, k2), rangeOf(s.sfx, k3, k4), 1)
 			}
 			if it.Eof() {
 				eof = 1
@@ -408,12 +425,64 @@ func (s *scen) walk(v int, n int) {
 				res, off = s.rankOf(key), s.idOf(o)
 			}
 		})
-		s.tr.Emit(vh.E("ItOp", "it", id, "op", op, "k", k, "k2", k2, "res", res, "off", off, "eof", eof, "ok", ok, "msg", msg))
+		s.tr.Emit(vh.E("ItOp", "it", id, "op", op, "k", k, "k2", k2, "k3", k3, "k4", k4, "res", res, "off", off, "eof", eof, "ok", ok, "msg", msg))
 		stats["iterops"]++
 		if ok == 0 {
 			return
 		}
 	}
+}
+
+// bounds picks a non-empty range description org < end over a table of n strings:
+// 0 = ixkey.Min, n+1 = ixkey.Max. (Degenerate skip-scan ranges are not generated: with
+// End = "" the initial skip group "" collides with an out-of-range empty prefix in Prev,
+// see the report; the properties do not cover skip-scan over empty range descriptions.)
+func bounds(rnd *rand.Rand, tab []string) (int, int) {
+	for {
+		o, e := bounds1(rnd, len(tab))
+		r := rangeOf(tab, o, e)
+		if r.Org < r.End { // rank 0 and rank 1 are the same string when the table starts with ""
+			return o, e
+		}
+	}
+}
+
+func bounds1(rnd *rand.Rand, n int) (int, int) {
+	switch rnd.Intn(4) {
+	case 0:
+		return 0, n + 1
+	case 1:
+		o := rnd.Intn(n + 1)
+		return o, min(n+1, o+1+rnd.Intn(2))
+	}
+	o, e := rnd.Intn(n+2), rnd.Intn(n+2)
+	if o > e {
+		o, e = e, o
+	}
+	if o == e {
+		if e <= n {
+			e++
+		} else {
+			o--
+		}
+	}
+	return o, e
+}
+
+func rangeOf(tab []string, o, e int) iface.Range {
+	at := func(i int) string {
+		if i <= 0 {
+			return ixkey.Min
+		}
+		if i > len(tab) {
+			return ixkey.Max
+		}
+		return tab[i-1]
+	}
+	if o == 0 && e == len(tab)+1 {
+		return iface.All
+	}
+	return iface.Range{Org: at(o), End: at(e)}
 }
 
 func (s *scen) frac(v int, org, end int) float64 {
@@ -461,6 +530,9 @@ func randSubset(rnd *rand.Rand, K int, p float64, dups bool) []int {
 			rs = append(rs, r)
 			if dups && rnd.Intn(8) == 0 {
 				rs = append(rs, r)
+				if rnd.Intn(3) == 0 {
+					rs = append(rs, r) // a third copy: the duplicate check must survive a refused Add
+				}
 			}
 		}
 	}
